@@ -325,6 +325,21 @@ func (c *Conn) sortedMessageIDsLocked() []imap.MessageID {
 	return ids
 }
 
+// RemoteFlags restricts a flag set to what a connector reports in its updates: the system flags it keeps as labels.
+// \Deleted is a per-mailbox flag of the IMAP side (the repository's dummy connector never reports it either) and
+// keywords do not exist remotely.
+func RemoteFlags(flags imap.FlagSet) imap.FlagSet {
+	res := imap.NewFlagSet()
+
+	for _, f := range []string{imap.FlagSeen, imap.FlagFlagged, imap.FlagAnswered, imap.FlagDraft} {
+		if flags.Contains(f) {
+			res.AddToSelf(f)
+		}
+	}
+
+	return res
+}
+
 func (c *Conn) boxesLocked(m *RMessage) []imap.MailboxID {
 	res := make([]imap.MailboxID, 0, len(m.Boxes))
 	for id := range m.Boxes {
@@ -342,7 +357,7 @@ func (c *Conn) echoBoxesLocked(id imap.MessageID) {
 	}
 
 	if m, ok := c.Messages[id]; ok {
-		c.outbox = append(c.outbox, imap.NewMessageMailboxesUpdated(id, c.boxesLocked(m), m.Flags.Clone()))
+		c.outbox = append(c.outbox, imap.NewMessageMailboxesUpdated(id, c.boxesLocked(m), RemoteFlags(m.Flags)))
 	}
 }
 
@@ -424,7 +439,7 @@ func (c *Conn) mark(method string, messageIDs []imap.MessageID, flag string, on 
 			}
 
 			if c.Echo == Faithful {
-				c.outbox = append(c.outbox, imap.NewMessageFlagsUpdated(id, m.Flags.Clone()))
+				c.outbox = append(c.outbox, imap.NewMessageFlagsUpdated(id, RemoteFlags(m.Flags)))
 			}
 		}
 	}
